@@ -10,6 +10,11 @@ package main
 //   Y <hextype>             committed entry with another Type                       -> "R<i> <reply>" per node
 //   A <node> <ms>           advance that node's clock
 //   Z <node> <msec>         raft snapshot of that node (FSM.Snapshot + Persist), kept in a register -> "Z <result>"
+//   ZB <node> / ZP <msec>   the same in raft's two steps: FSM.Snapshot() now, Persist later (entries applied in between
+//                           must not be in the snapshot)                           -> "Z <result>" at ZP
+//   LO <node> <db> <hex>... a committed entry replayed on that node only (the suffix after a snapshot install) -> "R<node> <reply>"
+//   BL <k>                  the next k entry lines are one raft batch: node 0 applies them one by one, the others through
+//                           ApplyBatch when the state machine implements raft.BatchingFSM (as hashicorp/raft's runFSM does)
 //   V <node>                FSM.Restore of the register into that node             -> "V <result>"
 //   F <node>                replace that node by a fresh instance (same clock)
 //   H <node> <db> <hex> ... client command through handleCommand on that node (cluster branch) -> "H <reply>"
@@ -168,6 +173,49 @@ func (c *cluster) marks() {
 	}
 }
 
+func entryOf(f []string) []byte {
+	req := applyRequest{ServerID: "node-0", ConnectionID: "1", Protocol: 2}
+	switch f[0] {
+	case "L":
+		req.Type = "command"
+		req.Database, _ = strconv.Atoi(f[1])
+		for _, h := range f[2:] {
+			req.CMD = append(req.CMD, unhex(h))
+		}
+	case "K":
+		req.Type = "delete-key"
+		req.Database, _ = strconv.Atoi(f[1])
+		req.Key = unhex(f[2])
+	case "Y":
+		req.Type = unhex(f[1])
+	}
+	data, _ := json.Marshal(req)
+	return data
+}
+
+// feedBatch: the replies are printed entry by entry, node by node, exactly as for single entries.
+func (c *cluster) feedBatch(datas [][]byte) {
+	res := make([][]sugardb.VerifApplied, len(c.nodes))
+	for i, n := range c.nodes {
+		if i == 0 {
+			res[i] = make([]sugardb.VerifApplied, len(datas))
+			for k, d := range datas {
+				raw, resp, errText, pan := n.rn.FSMApply(d)
+				res[i][k] = sugardb.VerifApplied{Raw: raw, Resp: resp, ErrText: errText, Panicked: pan}
+			}
+		} else {
+			res[i] = n.rn.FSMApplyBatch(datas)
+		}
+	}
+	for k := range datas {
+		for i := range c.nodes {
+			r := res[i][k]
+			fmt.Fprintf(c.out, "R%d %s\n", i, show(r.Resp, r.ErrText, r.Panicked, r.Raw))
+		}
+		c.marks()
+	}
+}
+
 func (c *cluster) feed(data []byte) {
 	for i, n := range c.nodes {
 		raw, resp, errText, pan := n.rn.FSMApply(data)
@@ -210,6 +258,8 @@ func main() {
 	defer out.Flush()
 	sugardb.VerifClusterNoSockets(true)
 	var c *cluster
+	var batch [][]byte
+	batchLeft, begun := 0, 0
 	for {
 		line, err := rd.ReadString('\n')
 		line = strings.TrimRight(line, "\n")
@@ -219,24 +269,55 @@ func main() {
 			case "S":
 				c = newCluster(f[2:], out)
 				fmt.Fprintf(out, "S %s\n", f[1])
+			case "BL":
+				// the next <k> entry lines are one raft batch: node 0 applies them one by one, the other nodes
+				// get them the way hashicorp/raft's runFSM delivers a batch (ApplyBatch when implemented)
+				batchLeft, _ = strconv.Atoi(f[1])
+				batch = nil
 			case "L", "K", "Y":
-				req := applyRequest{ServerID: "node-0", ConnectionID: "1", Protocol: 2}
-				switch f[0] {
-				case "L":
-					req.Type = "command"
-					req.Database, _ = strconv.Atoi(f[1])
-					for _, h := range f[2:] {
-						req.CMD = append(req.CMD, unhex(h))
+				data := entryOf(f)
+				if batchLeft > 0 {
+					batch = append(batch, data)
+					batchLeft--
+					if batchLeft == 0 {
+						b := batch
+						batch = nil
+						guarded(out, "BL", func() { c.feedBatch(b) })
 					}
-				case "K":
-					req.Type = "delete-key"
-					req.Database, _ = strconv.Atoi(f[1])
-					req.Key = unhex(f[2])
-				case "Y":
-					req.Type = unhex(f[1])
+				} else {
+					guarded(out, f[0], func() { c.feed(data) })
 				}
-				data, _ := json.Marshal(req)
-				guarded(out, f[0], func() { c.feed(data) })
+			case "LO":
+				i, _ := strconv.Atoi(f[1])
+				data := entryOf(append([]string{"L"}, f[2:]...))
+				guarded(out, "LO", func() {
+					raw, resp, errText, pan := c.nodes[i].rn.FSMApply(data)
+					fmt.Fprintf(out, "R%d %s\n", i, show(resp, errText, pan, raw))
+					c.marks()
+				})
+			case "ZB":
+				i, _ := strconv.Atoi(f[1])
+				guarded(out, "ZB", func() {
+					errText, pan := c.nodes[i].rn.FSMSnapshotBegin()
+					if pan != "" || errText != "" {
+						fmt.Fprintf(out, "ZB %s%s\n", errText, pan)
+					}
+					begun = i
+				})
+			case "ZP":
+				msec, _ := strconv.ParseInt(f[1], 10, 64)
+				guarded(out, "ZP", func() {
+					data, errText, pan := c.nodes[begun].rn.FSMSnapshotPersist(msec)
+					switch {
+					case pan != "":
+						fmt.Fprintf(out, "Z !\n")
+					case errText != "":
+						fmt.Fprintf(out, "Z -\n")
+					default:
+						c.snap = data
+						fmt.Fprintf(out, "Z ok\n")
+					}
+				})
 			case "A":
 				i, _ := strconv.Atoi(f[1])
 				ms, _ := strconv.ParseInt(f[2], 10, 64)
